@@ -6,6 +6,7 @@
 import Driver.Proto
 import Lace.Spec.ISA
 import Lace.Model.VM
+import Driver.Asm
 open Lace Lace.Driver
 
 /-- `X02 stackOn minimal instr <machine> inp-hex`
@@ -29,6 +30,7 @@ def handleX02 (toks : List String) : String :=
 def handle (line : String) : String :=
   match line.trimAscii.toString.splitOn " " with
   | "X02" :: rest => handleX02 rest
+  | "A01" :: rest => handleA01 rest
   | _ => "bad-request"
 
 partial def loop (h : IO.FS.Stream) (out : IO.FS.Stream) : IO Unit := do
